@@ -158,6 +158,11 @@ def run(ctx):
         # the same with capacity counted independently of gopar and of the model: recovery blocks whose complete packet is
         # still present in some <base>.*.par2 file (damaged recovery files included) vs slices not cleanly present
         cd = P.counts_of(L.parse_result(dres[c["dline"]])) if c.get("dline") else P.counts_of(pv)
+        truth = P.independent_usable(ps, c["fs"])
+        if truth is not None:
+            # the slices not cleanly present, counted from the original contents alone (neither gopar nor the model is consulted)
+            cd = {"unusable": ps.nslices() - truth}
+            dist["independent_capacity_cases"] = dist.get("independent_capacity_cases", 0) + 1
         if cd:
             blocks = P.intact_block_count(ps, c["fs"])
             dist["volume_damage"] = dist.get("volume_damage", 0) + ("+vol" in c["desc"])
